@@ -47,6 +47,10 @@ def run(ctx):
     rows = vlib.read_ndjson(traces)
     for (t, l) in rejected:
         ev = rows[t - 1]["ev"][0]
+        if ev["op"] == "Recheck":
+            vlib.report_violation(ctx, "C18/earlier-body-changed", "the stored body of an earlier message changed after SetBody on another "
+                                  "message: %s" % json.dumps(ev["which"])[:200], {"event": ev})
+            continue
         if ev["err"]:
             key, what = "C18/error", "SetBody failed: %s" % (ev.get("errtext") or ev.get("panic"))
         elif not ev["textPreserved"] and ev["outlen"] < ev["inlen"] // 2:
@@ -65,7 +69,8 @@ def run(ctx):
     vlib.write_evidence(ctx, "exploration", {
         "traces_validated_against_impl": acc,
         "evaluations": st["traces"],
-        "distinct_nontrivial": len(set(json.dumps(r["ev"][0]["desc"]) + str(r["ev"][0]["inlen"]) for r in rows if r["ev"][0]["inlen"] > 0)),
+        "distinct_nontrivial": len(set(json.dumps(r["ev"][0]["desc"]) + str(r["ev"][0]["inlen"]) for r in rows
+                                       if r["ev"][0]["op"] == "Body" and r["ev"][0]["inlen"] > 0)),
         "rule": "one evaluation = one SetBody call on a text expanded from a TLC-enumerated shape descriptor (runs of ascii/wide/mixed "
                 "characters x length class around Wrap=998 and Tok=65536 x terminator) or a seeded free-form text; non-trivial = "
                 "non-empty text; distinct by (descriptor, input length)",
